@@ -11,6 +11,8 @@ NCh == 4
 Lim == [freq |-> <<15, 320>>, amp |-> <<3, 20>>, offs |-> <<-20, 30>>, skew |-> <<-25, 25>>, plen |-> <<2, MaxMem>>]
 Orders == <<7, 9, 11, 15, 23, 31>>
 Verb == [freq |-> "FREQ", amp |-> "VOLT:POS", offs |-> "VOLT:OFFS", skew |-> "SKEW", plen |-> "PATT:LENG", order |-> "PATT:PLEN"]
+\* unlimited per-channel settings: pattern type (DATA = 0, PRBS = 1), output switch (OFF = 0, ON = 1), bit shift (any integer)
+FlagVerbs == {"PATT:TYPE", "OUTP"}
 
 Clip(v, lo, hi) == IF v < lo THEN lo ELSE IF v > hi THEN hi ELSE v
 Abs(x) == IF x < 0 THEN -x ELSE x
@@ -46,7 +48,24 @@ MustNotWarn(q, req, scalar, sel) ==
 SetWarn(q, req, scalar, sel) == MustWarn(q, req, scalar, sel)
 WarnOK(q, req, scalar, sel, warned) == (MustWarn(q, req, scalar, sel) => warned) /\ (MustNotWarn(q, req, scalar, sel) => ~warned)
 CmdOK(c) == /\ (c.verb = "FREQ" => c.ch = 0) /\ (c.verb # "FREQ" => c.ch \in 1..NCh)
-            /\ \E q \in DOMAIN Verb : Verb[q] = c.verb /\ InRange(q, c.val)
+            /\ \/ \E q \in DOMAIN Verb : Verb[q] = c.verb /\ InRange(q, c.val)
+               \/ c.verb \in FlagVerbs /\ c.val \in {0, 1}
+               \/ c.verb = "PATT:BSH"
+\* per-channel flag / shift commands
+FlagCmds(verb, val, sel) == LET chs == Channels(sel) IN [i \in 1..Len(chs) |-> [verb |-> verb, ch |-> chs[i], val |-> val]]
+\* the composite call ppg(freq, patt_len, Vout, offset, bsh, skew, mode, order, data, CHs): the individual setters in this fixed order;
+\* each argument is <<>> (not given) or <<v>>; order only with mode PRBS (1), data only with mode DATA (0)
+Opt(q, a, sel) == IF a = <<>> THEN <<>> ELSE SetCmds(q, a, TRUE, sel)
+ConfigSetCmds(c, sel) ==
+  Opt("freq", c.freq, sel) \o Opt("plen", c.plen, sel) \o Opt("amp", c.amp, sel) \o Opt("offs", c.offs, sel)
+  \o (IF c.bsh = <<>> THEN <<>> ELSE FlagCmds("PATT:BSH", c.bsh[1], sel)) \o Opt("skew", c.skew, sel)
+  \o (IF c.mode = <<>> THEN <<>> ELSE FlagCmds("PATT:TYPE", c.mode[1], sel))
+  \o (IF c.order # <<>> /\ c.mode = <<1>> THEN SetCmds("order", c.order, TRUE, sel) ELSE <<>>)
+ConfigSendsData(c) == c.data # <<>> /\ c.mode = <<0>>
+ConfigMustWarn(c, sel) ==
+  \/ \E q \in {"freq", "plen", "amp", "offs", "skew"} : c[q] # <<>> /\ MustWarn(q, c[q], TRUE, sel)
+  \/ (c.order # <<>> /\ c.mode = <<1>> /\ MustWarn("order", c.order, TRUE, sel))
+  \/ ((c.bsh # <<>> \/ c.mode # <<>> \/ ConfigSendsData(c) \/ \E q \in {"plen", "amp", "offs", "skew"} : c[q] # <<>>) /\ ChWarn(sel))
 
 \* ---- data blocks
 Digits(n) == IF n < 10 THEN 1 ELSE IF n < 100 THEN 2 ELSE IF n < 1000 THEN 3 ELSE IF n < 10000 THEN 4 ELSE IF n < 100000 THEN 5 ELSE IF n < 1000000 THEN 6 ELSE 7
